@@ -123,6 +123,9 @@ def window_rows(tab, w):
 def gen_case(rng, maxn, faults=False):
     """(table, logical contexts): contexts = [{"window": (a, b), "entries": [(stream, spec)]}], whole-second bounds."""
     tab = sc.gen_table(rng, maxn)
+    if "z" in tab["axes"] and rng.random() < 0.25:
+        # the depth / pressure column is itself quality-controlled: a configured stream id that is also an axis column
+        tab["cols"]["z"] = list(tab["axes"]["z"])
     import math
     wins = [tuple(None if v is None else math.floor(F(v)) for v in w) for w in sc.window_layout(rng, tab)]
     pool = usable(tab)
